@@ -9,6 +9,8 @@ from ..store import compose
 from ..pwtools import pw_equal
 from .common import find_entry, interiors, rename_fields, short
 
+CASE_SPLIT = True     # orderings between different grid sizes are analysed case by case (regions.run_under_size_cases)
+
 
 def zero_expr(e):
     return e.is_leaf() and e.leaf.is_zero()
